@@ -119,6 +119,11 @@ let handle = function
            PExtend (if a = "" then [] else List.map parse_list (String.split_on_char ';' a))
          | _ -> failwith "bad psm op" in
        r2 (path_segments_session d u (List.map op args))
+     | "join" ->
+       (match parse_url d hp ho hd None (Some u) (l 0) with
+        | POk u' -> show_url u' ^ " ok"
+        | PErr e -> show_url u ^ " err" ^ show_n (parse_error_code e)
+        | PPanic -> "panic")
      | "qpm" ->
        (* qpm <finish flag> <op>*   op = a<k>=<v> | k<k> | x<k>=<v>;<k>=<v>... | c *)
        let pair s = match String.split_on_char '=' s with
